@@ -226,7 +226,7 @@ func genC06(r *rand.Rand, tier string, idx int) *World {
 	can := &CanaryDef{
 		Replicas: pick(r, "1", "2", "3"), Duration: "10m", NoRestartsDuration: pick(r, "", "5m"),
 		AutoPauseEnabled: bptr(chance(r, 0.75)), AutoPauseMaxRestarts: i32(apMax), MaxSlowStartDuration: pick(r, "", "1m", "5m"),
-		AutoFailEnabled: bptr(chance(r, 0.75)), AutoFailMaxRestarts: i32(afMax), MaxRestartsDuration: pick(r, "", "2m", "10m"), CanaryTimeout: pick(r, "", "", "11m", "20m"),
+		AutoFailEnabled: bptr(chance(r, 0.75)), AutoFailMaxRestarts: i32(afMax), MaxRestartsDuration: pick(r, "", "2m", "10m", "0s"), CanaryTimeout: pick(r, "", "", "11m", "20m"),
 	}
 	side := chance(r, 0.4)
 	e := &EDSDef{NS: "ns1", Name: "foo", Initial: "A", Templates: map[string]*TemplateDef{"A": {Letter: "A", Side: side}, "B": {Letter: "B", Side: side}}}
@@ -268,7 +268,8 @@ func genC06(r *rand.Rand, tier string, idx int) *World {
 		ps.AgeSec = ps.StartAgoSec + 10
 		cs.Pods = append(cs.Pods, c06Pod{State: ps})
 	}
-	mrd := map[string]int{"": 200, "2m": 120, "10m": 600}[can.MaxRestartsDuration]
+	// "0s": fail as soon as two distinct restarts have been observed
+	mrd := map[string]int{"": 200, "2m": 120, "10m": 600, "0s": 2}[can.MaxRestartsDuration]
 	if chance(r, 0.6) {
 		upd := pick(r, 5, 30, 100)
 		cs.Conds = append(cs.Conds, c06Cond{Type: "PodRestarting", Status: "True", UpdAgo: upd, TransAgo: upd + pick(r, 0, mrd-2, mrd, mrd+1, mrd+3, 2*mrd)})
@@ -854,6 +855,9 @@ func genC09Inject(r *rand.Rand, tier string, idx int) *World {
 	e.Strategy.MaxParallel = i32(pick(r, int32(1), 2, 5, 250, 1, 2, 5, 250, 0))
 	w.EDS = []*EDSDef{e}
 	w.Extra["requests"] = fmt.Sprint(5 + r.IntN(16))
+	if chance(r, 0.15) {
+		w.Extra["ruPaused"] = "1"
+	}
 	w.Extra["update"] = pick(r, "0", "1", "2", "2", "3", "4")
 	if w.Extra["update"] == "4" {
 		// a node the daemon does not target (stray pods there are clean-up work) and one that joins later
@@ -881,6 +885,12 @@ func bodyC09Inject(s *Sim) {
 	reqs := 10
 	fmt.Sscan(s.W.Extra["requests"], &reqs)
 	r := subRng(s.Seed, "c09req")
+	if s.W.Extra["ruPaused"] == "1" {
+		// the rolling update is paused from the start: pods are still created for nodes lacking one,
+		// under the same slow start
+		s.userAnnotate(def.NS, def.Name, edsv1.ExtendedDaemonSetRollingUpdatePausedAnnotationKey, "true")
+		s.Stats.NonVacuous["C09.paused-creates"]++
+	}
 	for i := 0; i < reqs; i++ {
 		if i == reqs/2 && s.W.Extra["update"] == "1" {
 			s.userSetTemplate(def.NS, def.Name, "B")
